@@ -163,8 +163,51 @@ theorem stepDma_sound (e : Env) (m : Memory) (idx : Nat) (d : DmaOp) (i : DmaInf
     satisfied (`StepOk`); the memory it leaves does not depend on the verdict and keeps the invariant -/
 theorem step_sound (e : Env) (m : Memory) (idx : Nat) (op : DecOp) (info : Info) (h : m.Inv) :
     ((step e m idx op info).1 = [] ↔ StepOk e m op info) ∧
-      (step e m idx op info).2 = nextMem m op info ∧ (nextMem m op info).Inv :=
-  ⟨step_fst_nil_iff e h idx op info, step_snd e m idx op info, nextMem_inv h op info⟩
+      (step e m idx op info).2 = nextMem e m op info ∧ (nextMem e m op info).Inv :=
+  ⟨step_fst_nil_iff e h idx op info, step_snd e m idx op info, nextMem_inv e h op info⟩
+
+/-- 6a. a kernel operation leaves junk in its SHRAM working partitions: after the step every byte of the
+    IFM-buffer partition and (unless elementwise) of the accumulator partition carries the junk tag, so a
+    lookup table that lay there no longer satisfies any later table read (`junkTid ≠ constTid`). On the
+    16-bank configurations the accumulator partition of an operation without a table reaches the end of
+    SHRAM, i.e. covers the table window (`clobber_covers_lut_window_16_banks`). -/
+theorem stepBlock_clobbers_shram (e : Env) (m : Memory) (b : BlockOp) (i : OpInfo) (h : m.Inv)
+    (hofm : b.ofm.region ≠ REGION_SHRAM) (p : Piece) (hp : p ∈ shramClobber e b) (byte : Nat) (hb : p.covers byte) :
+    (nextMem e m (.block b) (.block i)).get REGION_SHRAM byte = some (junkTid, 0) := by
+  show (writePieces (writePieces m REGION_SHRAM junkTid (shramClobber e b) 0) _ _ _ 0).get REGION_SHRAM byte = _
+  rw [Mem.get_writePieces_other_region (Mem.writePieces_inv h _ _ _ _) _ _ _ _ (Ne.symm hofm)]
+  have hd : ∀ q ∈ shramClobber e b, q.delta = 0 := by
+    intro q hq
+    unfold shramClobber clobberPieces at hq
+    simp only [List.mem_append] at hq
+    rcases hq with hq | hq
+    · split at hq
+      · cases List.mem_singleton.mp hq; rfl
+      · cases hq
+    · split at hq
+      · cases List.mem_singleton.mp hq; rfl
+      · cases hq
+  have := Mem.get_writePieces_written_eq h REGION_SHRAM junkTid (shramClobber e b) 0 hp hb
+    (fun q hq _ => by rw [hd q hq, hd p hp])
+  rw [this, hd p hp]; rfl
+
+/-- 6b. on a 16-bank configuration, a non-elementwise operation without a lookup table whose accumulators
+    start below the table window clobbers every byte of the window -/
+theorem clobber_covers_lut_window_16_banks (e : Env) (b : BlockOp) (h16 : e.shramBytes = 16 * shramBankBytes)
+    (hlut : lutIndex b.activation = none) (hk : isElementwise b = false)
+    (hab : b.abStart * shramBankBytes ≤ e.lutBase) (byte : Nat) (h1 : e.lutBase ≤ byte) (h2 : byte < e.shramBytes) :
+    ∃ p ∈ shramClobber e b, p.covers byte := by
+  have hu : e.usableShram = e.shramBytes := by
+    unfold Env.usableShram; rw [h16]; simp
+  have ht : shramTop e b = e.shramBytes := by
+    unfold shramTop; rw [hlut]; simpa using hu
+  refine ⟨⟨b.abStart * shramBankBytes, e.shramBytes - b.abStart * shramBankBytes, 0⟩, ?_, ?_⟩
+  · unfold shramClobber clobberPieces
+    rw [ht, hk]
+    have : b.abStart * shramBankBytes < e.shramBytes := by omega
+    simp [this]
+  · show b.abStart * shramBankBytes ≤ byte ∧ byte < b.abStart * shramBankBytes + (e.shramBytes - b.abStart * shramBankBytes)
+    omega
 
 /-- 6. `execTagged` reports nothing **iff** the run is fine: each step's kind matches and all its reads are
     satisfied in the memory produced by the steps before it (`RunOk`, defined by recursion over the
@@ -179,7 +222,7 @@ theorem execTagged_sound (e : Env) (init : Memory) (ops : List DecOp) (infos : L
 theorem execTagged_sound_trace (e : Env) (init : Memory) (ops : List DecOp) (infos : List Info) (h : init.Inv)
     (hexec : execTagged e init ops infos = []) :
     ∀ k (hk : k < (ops.zip infos).length),
-      StepOk e (memAt init (ops.zip infos) k) (ops.zip infos)[k].1 (ops.zip infos)[k].2 :=
+      StepOk e (memAt e init (ops.zip infos) k) (ops.zip infos)[k].1 (ops.zip infos)[k].2 :=
   (RunOk_iff_forall e init (ops.zip infos)).mp ((execTagged_nil_iff e h ops infos).mp hexec)
 
 /-- element-level reading of a satisfied feature-map read (uses `Footprint.fmPiecesS_covers`): every byte of
